@@ -9,7 +9,7 @@ from harness.props import c01, c06, c07
 PROP = 'C17'
 RULE = ("IPM files produced by IpmWriter over message lists sized to give each block count 1..10 (and 12, 20) x {latin_1, "
         "cp500, cp037, cp273, cp1140, ascii} x {VBS, 1014} x 20 first messages; invalid classes at their boundaries: "
-        "23/24-byte inputs, first length 6000/6001/2^32-1, each unconfigured bit 2..128, hand-built 1013/1014/2027/2028-"
+        "23/24-byte inputs, first length 6000/6001/2^32-1, each unconfigured bit 2..128 with and without bit 1, every input length 0..24, configuration edited between two inspections, hand-built 1013/1014/2027/2028-"
         "byte samples, all 16 patterns of 0x40 at the four trailer positions. Non-trivial = file of at least two blocks or an invalid-class boundary; distinct = distinct file")
 TRUSTED = c01.TRUSTED + ["Model/Info.lean models ipm_info / block_1014_check / bitmap_check / encoding_check; str.isnumeric() "
                          "per byte of latin1 and cp037 is a table regenerated from the interpreter on every run"]
@@ -37,12 +37,38 @@ def file_of(case):
 
 
 def impl_eval(case):
-    from cardutil import mciipm
+    from cardutil import mciipm, config
     data = file_of(case)
+    saved = None
     try:
-        info = mciipm.ipm_info(io.BytesIO(data))
-    except Exception as ex:  # noqa
-        return {'obs': 'escape:' + type(ex).__name__, 'violation': f'ipm_info raised {type(ex).__name__}'}
+        if 'cfgedit' in case:
+            # a HISTORY: inspect, change the packaged configuration in place (drop / add an element), inspect again
+            try:
+                mciipm.ipm_info(io.BytesIO(data))
+            except Exception:  # noqa
+                pass
+            bc = config.config['bit_config']
+            saved = {k: bc.get(k) for k in case['cfgedit'].get('del', []) + case['cfgedit'].get('add', [])}
+            for k in case['cfgedit'].get('del', []):
+                bc.pop(k, None)
+            for k in case['cfgedit'].get('add', []):
+                bc[k] = {'field_name': 'added', 'field_type': 'FIXED', 'field_length': 2}
+        try:
+            info = mciipm.ipm_info(io.BytesIO(data))
+        except Exception as ex:  # noqa
+            return {'obs': 'escape:' + type(ex).__name__, 'violation': f'ipm_info raised {type(ex).__name__}'}
+    finally:
+        if saved is not None:
+            bc = config.config['bit_config']
+            for k, v in saved.items():
+                if v is None:
+                    bc.pop(k, None)
+                else:
+                    bc[k] = v
+            # keep the original key order of the packaged configuration
+            order = sorted(bc, key=int)
+            for k in order:
+                bc[k] = bc.pop(k)
     if info.get('isValidIPM'):
         obs = f"valid {int(bool(info.get('isBlocked')))} {info.get('encoding')}"
     else:
@@ -72,6 +98,8 @@ def impl_eval(case):
 
 
 def model_line(case):
+    if 'cfgedit' in case:
+        return None          # the model's configured bits are the packaged ones; these cases are judged by the oracle
     return 'info\thex:' + file_of(case).hex()
 
 
@@ -132,6 +160,27 @@ def explore(run, tier):
         cases.append({'hex': (struct.pack('>I', len(rec)) + rec).hex(),
                       'expect': 'valid' if bit in configured else 'invalid', 'cls': f'bit {bit}'})
     run.exhaustive.append('every bit 2..128 as the only element of the first bitmap')
+    # the same with bit 1 (secondary bitmap indicator) CLEAR: the library always reads 16 bytes, so an unconfigured
+    # bit 65..128 is invalid whatever bit 1 says
+    bm0 = lambda bits: sum(1 << (128 - b) for b in bits).to_bytes(16, 'big')   # noqa: E731
+    for bit in range(2, 129):
+        rec = b'1240' + bm0([bit]) + b' ' * 30
+        cases.append({'hex': (struct.pack('>I', len(rec)) + rec).hex(),
+                      'expect': 'valid' if bit in configured else 'invalid', 'cls': f'bit {bit} without bit 1'})
+    # inputs shorter than a length prefix, and up to the 24-byte minimum
+    full = struct.pack('>I', len(base)) + base
+    for n in range(0, 24):
+        cases.append({'hex': full[:n].hex(), 'expect': 'invalid', 'cls': f'{n} bytes'})
+    # configuration histories: the verdict must follow the configuration in force at the time of the call
+    for bit in (3, 12, 24, 48):
+        rec = b'1240' + bm([bit]) + b' ' * 30
+        cases.append({'hex': (struct.pack('>I', len(rec)) + rec).hex(), 'cfgedit': {'del': [str(bit)]},
+                      'expect': 'invalid', 'cls': f'DE{bit} removed from the configuration after a first inspection'})
+    for bit in (7, 8, 128):
+        if bit not in configured:
+            rec = b'1240' + bm([bit]) + b' ' * 30
+            cases.append({'hex': (struct.pack('>I', len(rec)) + rec).hex(), 'cfgedit': {'add': [str(bit)]},
+                          'expect': 'valid', 'cls': f'DE{bit} added to the configuration after a first inspection'})
     head = b'\x00\x00\x00\xff' + b'1234' + b'\x70' + b'\x00' * 15
     for body in [b' ' * 989, b' ' * 988 + b'@@', b' ' * 992, b' ' * 988 + b'@@' + b' ' * 1012 + b'@@',
                  b' ' * 990 + b'@@' + b' ' * 1014, b' ' * 988 + b'@@' + b' ' * 1013,
